@@ -115,6 +115,8 @@ fn responses() -> Vec<(&'static str, Vec<&'static str>)> {
         ("hsts-and-edited-names", vec!["Strict-Transport-Security: max-age=1", "X-Resp-Added: by-backend", "X-Resp-Delete: 1", "X-Keep: 2"]),
         ("values", vec!["X-Tab: a\tb", "X-Long: 0123456789012345678901234567890123456789012345678901234567890123456789"]),
         ("value-empty", vec!["X-Empty:", "X-A: 1"]),
+        // sozu's writes to the client move 7 bytes per turn: every field is cut between its name and its value
+        ("duplicates-slow-client", vec!["X-R: 1", "Set-Cookie: a=1; Path=/", "X-R: 2", "Set-Cookie: b=2", "X-Long: 0123456789012345678901234567890123456789"]),
     ]
 }
 
@@ -298,6 +300,9 @@ pub fn run_case(case: &Case, prefix: Vec<u32>, profile: ChoiceProfile) -> Run {
     let mut profile = profile;
     if case.request.ends_with("slow-backend") {
         profile.pace_write = Some((FdClass::Back, 7));
+    }
+    if case.response.ends_with("slow-client") {
+        profile.pace_write = Some((FdClass::Front, 7));
     }
     let (mut exec, create_err) = worker::run_worker(ws, vec![backend, client], vec![MainStep::AwaitPeersFor { ms: 20_000 }], profile, prefix, 300);
     if let Some(e) = create_err {
